@@ -298,7 +298,24 @@ impl<H: MsgHeader> Endpoint<H> {
             }];
             // SAFETY: Safe because we own rbuf and it's safe to fill a byte array with arbitrary
             // data.
-            let (n, _) = unsafe { self.sock.recv_with_fds(&mut iovs, &mut [])? };
+            let n = match unsafe { self.sock.recv_with_fds(&mut iovs, &mut []) } {
+                Ok((n, _)) => n,
+                Err(e) => match Error::from(e) {
+                    // The header of this message has been consumed already: being interrupted
+                    // or finding nothing queued yet on a non-blocking socket must not abandon
+                    // the message. (ENOBUFS, reported for descriptors attached to body data,
+                    // stays an error.)
+                    Error::SocketRetry(ref io)
+                        if matches!(
+                            io.kind(),
+                            std::io::ErrorKind::Interrupted | std::io::ErrorKind::WouldBlock
+                        ) =>
+                    {
+                        continue
+                    }
+                    e => return Err(e),
+                },
+            };
             if n == 0 {
                 break;
             }
